@@ -5,7 +5,7 @@
 cd "$(dirname "$0")/.."
 ids=${@:-$(ls seeded)}
 for sid in $ids; do
-  prop=$(python3 -c "import json;print(json.load(open('seeded/$sid/meta.json'))['breaks_property'])")
+  prop=$(python3 -c "import json;m=json.load(open('seeded/$sid/meta.json'));print(m.get('check_with') or m['breaks_property'])")
   cp=/tmp/vr-all-$sid-$$
   rm -rf $cp; cp -r /repo $cp
   if ! (cd $cp && git apply /verif/seeded/$sid/patch.diff 2>/dev/null); then echo "$sid $prop NOAPPLY"; rm -rf $cp; continue; fi
